@@ -236,7 +236,22 @@ func decodeCollCase(tier string, idx int, tape *Tape) *collCase {
 			c.Ops = append(c.Ops, cOp{Kind: cQueries})
 		}
 	}
-	c.Ops = append(c.Ops, cOp{Kind: cBuild}, cOp{Kind: cResolveAll})
+	c.Ops = append(c.Ops, cOp{Kind: cBuild})
+	if tape.Choose(StOps, 2) == 1 {
+		// edits after the last Build: the provider it returned must not notice them
+		for k := 1 + tape.Choose(StOps, 2); k > 0; k-- {
+			switch tape.Choose(StOps, 4) {
+			case 0:
+				c.Ops = append(c.Ops, cOp{Kind: cAdd, Reg: newReg()})
+			case 1:
+				c.Ops = append(c.Ops, cOp{Kind: cRemove, Id: Ident{T: pickT()}})
+			default:
+				// preferably a named constructor without a service result (a scope initializer)
+				c.Ops = append(c.Ops, cOp{Kind: cRemoveKeyed, Id: Ident{T: voidRef(), Key: keyPool[tape.Choose(StOps, 2)]}})
+			}
+		}
+	}
+	c.Ops = append(c.Ops, cOp{Kind: cResolveAll})
 	return c
 }
 
